@@ -74,7 +74,7 @@ def o_headers(case):
     n = case["n"]
     evals = 0
     cls = set()
-    digs = []
+    cnt = 0
     for sub in range(256):
         for ver in case["vers"]:
             for k, ln in enumerate(case["tails"]):
@@ -85,7 +85,7 @@ def o_headers(case):
                 evals += 1
                 cls.add(r)
                 if ln or r != "stub":
-                    digs.append(digest([n, sub, ver, k]))
+                    cnt += 1
     # two-byte payloads (no sub-type byte): identity must still be the number, except 4076 which needs the third byte
     if n != 4076:
         for low in (0, 0xF):
@@ -94,7 +94,7 @@ def o_headers(case):
     cls.add("msm-roster" if n in MSM_ROSTER else ("msm-block-other" if 1070 <= n <= 1229 else "outside-msm-block"))
     if n == 4076:
         cls.add("4076")
-    return Res(nontrivial=True, classes=sorted(cls), evals=evals, digests=digs)
+    return Res(nontrivial=True, classes=sorted(cls), evals=evals, count=cnt)
 
 
 def e_headers(tier, shard, nshards):
